@@ -2,9 +2,14 @@
 //
 // Space: scheme x keys x message alphabet x witness alphabet x every single-bit (hashcom) / single-component
 // (algebraic schemes) change of message, witness, key and commitment; trapdoor equivocation for every message
-// pair; homomorphic op sequences to depth 3 (BFS) against a math/big (message, witness) model; commitment keys
-// extracted from every pair of a fixed set of transcript histories.
-// Oracle: definition-level recomputation (keyed BLAKE2b, math/big curve / modular arithmetic).
+// pair; homomorphic op sequences to depth 3 (thorough 5) by BFS against a math/big (message, witness) model;
+// commitment keys extracted from every pair of a fixed set of transcript histories.
+// Oracle: Open accepts the untouched tuple, rejects every lone change whose altered tuple is not itself a valid
+// opening by definition (decided from decoded values: keyed BLAKE2b / math/big curve and modular arithmetic);
+// equivocated openings verify under the exported key; combined commitments equal the recomputation from scratch.
+//
+// Files: hashcom_test.go, pedersen_test.go (+ curve contexts, equivocation), intcom_test.go, indcpa_test.go
+// (Paillier, ElGamal), homomorphic_test.go (BFS), extract_test.go, refcurve_test.go (math/big reference curve).
 package c18
 
 import (
@@ -19,7 +24,7 @@ import (
 func TestMain(m *testing.M) { engine.Main(m, "C18", "fault_enumeration") }
 
 func TestCheck(t *testing.T) {
-	engine.Rule("fault sections: one execution per (scheme, key, message, witness) tuple of the stated alphabets; inner cases = the untouched tuple plus every lone change of one component (hashcom: every single bit of message/witness/key/commitment and every one-byte length change; algebraic schemes: every other alphabet value, ±1, negation, doubling, every single-bit change of the canonical encoding that the library decoder accepts, unreduced re-encodings, and for group elements -P, 2P, P±G, O, G, foreign elements). A case is distinct by (tuple, component, change) and non-trivial when Open was called on it and compared with the definition. Equivocation: every trapdoor key x ordered message pair x witness. Homomorphic: BFS over op histories, state = (message, witness) model. Extraction: all ordered pairs of (history, label) instances.")
+	engine.Rule("fault sections: one execution per (scheme, key, message, witness) tuple; inner cases = the untouched tuple plus every lone change of one component. hashcom: 4 keys (2 stream-sampled, 2 transcript-extracted) x messages {empty, 00, a5, 32 B, 1 KiB; thorough + 32xff, 4 KiB, 16 KiB, 64 KiB} x witnesses {00.., ff.., 2 sampled} x every single bit of message/witness/key/commitment, every one-byte length change, every other alphabet value. Pedersen (k256, BLS12-381 G1): keys {sampled, extracted; thorough + sampled, trapdoor export} x messages/witnesses {0,1,q-1,sampled; thorough +2}; integer commitments: keys {trapdoor export, extracted over 128-bit N, trapdoor export over 256-bit N; thorough + 512} x messages {0,±1,±(2^256-1),sampled} x witnesses {0,±1,both ends of the sampling range,sampled}; Paillier (N 128, 256; thorough + 512 bits) x messages {0,1,N-1,(N±1)/2,sampled} x nonces {1,N-1,2,2 sampled}; ElGamal/k256 (2 sampled keys) x messages {O,G,-G,sampled; thorough +2G} x nonces {0,1,q-1,sampled; thorough +2}. Lone changes of a scalar/integer/residue: every other alphabet value, ±1, negation, doubling (square, inverse for residues), every single-bit change of the canonical encoding/value that the library constructor or decoder accepts, unreduced re-encodings v+q, v+2q; of a group element: -P, 2P, P±G, O, G, a foreign element, every single-bit change of the compressed encoding that decodes. A case is distinct by (tuple, component, change); it is non-trivial when Open ran on it and was compared with the verdict computed from decoded values. Equivocation: every trapdoor key x ordered message pair x witness. Homomorphic: BFS over histories of 12 operations to depth 3 (thorough 5), state = (message, witness) model pair. Extraction: every ordered pair of 20 histories x 2 labels, the two sides built as independent transcript objects.")
 	engine.Assume(
 		"math/big, crypto/sha256, crypto/sha3 and golang.org/x/crypto/blake2b are correct; the reference curve constants are the published ones (self-checked: G on curve, n·G = O)",
 		"k256 and BLS12-381 G1 have prime order, so for P ≠ O: a·P = b·P iff a ≡ b (mod q) (used to decide validity of single-bit changes without a full reference recomputation; cross-checked against the full recomputation on every algebraic change)",
